@@ -244,6 +244,13 @@ def make_classes():
                 self.hang = True
             return True
 
+        def start_server_rekey(self):
+            """First half of Transport.renegotiate_keys(): our KEXINIT goes out, in_kex is set; the quiet peer never
+            answers, so the exchange stays in flight."""
+            self.ts.completion_event = threading.Event()
+            self.ts._send_kex_init()
+            return bool(self.ts.in_kex)
+
         def close(self):
             try:
                 self.tc.close()
@@ -369,7 +376,9 @@ def gen_session(rng):
         if rng.random() < 0.25 and not lastp:
             p, pl, env2, mm = gen_auth(rng)
             steps.append((p, pl, env2, ("PAuth", mm), True))
-    return steps, control
+    # a server-initiated key exchange in flight from some point on (dispatch must not depend on it)
+    rekey_at = rng.randrange(len(steps)) if rng.random() < 0.3 else None
+    return steps, control, rekey_at
 
 
 def model_case(steps):
@@ -377,11 +386,13 @@ def model_case(steps):
                 for (_, _, env, pk, _) in steps])
 
 
-def case_repr(steps):
+def case_repr(steps, rekey_at=None):
+    if rekey_at is not None and rekey_at < len(steps):
+        return {"server_rekey_before_step": rekey_at, "steps": case_repr(steps)["steps"]}
     return {"steps": [{"ptype": p, "payload": pl, "env": dict(env), "app_ok": ok} for (p, pl, env, _, ok) in steps]}
 
 
-def run_session(ctx, Session, hostkey, steps, stats, control=True):
+def run_session(ctx, Session, hostkey, steps, stats, control=True, rekey_at=None):
     """Drive one real session; returns (canonical list, number of steps used) -- None when a timing problem
     was seen.  A session that got authenticated by chance stops before its first connection-layer packet
     (payloads for authenticated handlers are only crafted in the contrast sessions)."""
@@ -402,10 +413,15 @@ def run_session(ctx, Session, hostkey, steps, stats, control=True):
                 continue
             if pk[0] == "PConn" and pre_authed and not control:
                 return canon, i
+            if rekey_at == i:
+                sess.start_server_rekey()
+                stats["server_rekeys"] = stats.get("server_rekeys", 0) + 1
+            in_kex = bool(sess.ts.in_kex)
             sess.send(ptype, payload, env, app_ok)
             if sess.hang:
                 return None
-            sent = [m for m in sess.ts.packetizer.v_sent if m[:1] != b"\x07"]      # late EXT_INFO of the handshake
+            # not part of the comparison: a late EXT_INFO of the handshake, our own KEXINIT
+            sent = [m for m in sess.ts.packetizer.v_sent if m[:1] not in (b"\x07", b"\x14")]
             trace = list(sess.trace)
             alive = sess.alive()
             authed = sess.authed()
@@ -416,7 +432,7 @@ def run_session(ctx, Session, hostkey, steps, stats, control=True):
             is_conn = pk[0] == "PConn"
             if is_conn:
                 stats["conn"] = stats.get("conn", 0) + 1
-                key = "%d:%s:%s" % (ptype, "authed" if pre_authed else "preauth",
+                key = "%d:%s%s:%s" % (ptype, "authed" if pre_authed else "preauth", "+in_kex" if in_kex else "",
                                     "alive" if alive else "dead(%s)" % type(exc).__name__)
                 stats.setdefault("outcomes", {})
                 stats["outcomes"][key] = stats["outcomes"].get(key, 0) + 1
@@ -443,7 +459,9 @@ def run_session(ctx, Session, hostkey, steps, stats, control=True):
                 elif ptype not in (80, 90) and any(m[:1] not in (b"\x03", b"\x01") for m in sent):
                     bad = "unexpected reply to a pre-auth connection-layer message"
                 if bad:
-                    ctx.fail("preauth-service-reached:%d" % ptype, bad, case=case_repr(steps[:i + 1]),
+                    ctx.fail("preauth-service-reached:%d%s" % (ptype, ":in-kex" if in_kex else ""),
+                             bad + (" (server-initiated key exchange in flight)" if in_kex else ""),
+                             case=case_repr(steps[:i + 1], rekey_at),
                              expected="refusal only, no callback, no channel",
                              observed={"sent": sent, "callbacks": [ev[2] for ev in apps], "channels": chans,
                                        "accept_queue": queue})
@@ -500,6 +518,24 @@ def gss_swap_sessions(ctx, Session, hostkey, stats):
             sess.close()
 
 
+def inkex_sessions(ctx, Session, hostkey, stats):
+    """Deterministic: every connection-layer type right after the server started a key exchange, before any
+    authentication and after a failed / partial one."""
+    base = {"res": 2, "gss": False, "mechok": True, "tok": 1, "micok": True, "kexctx": False, "banner": False}
+    conn = {80: s_(b"tcpip-forward") + b"\x01" + s_(b"127.0.0.1") + struct.pack(">I", 2222),
+            90: s_(b"session") + struct.pack(">III", 3, 2 ** 21, 2 ** 15)}
+    prefixes = [[], [(50, s_(b"alice") + s_(b"ssh-connection") + s_(b"password") + b"\x00" + s_(b"pw"), dict(base, res=2),
+                      ("PAuth", ("Msg50", b"alice", b"ssh-connection", ("BPassword", False))), True)],
+                [(50, s_(b"alice") + s_(b"ssh-connection") + s_(b"none"), dict(base, res=1),
+                  ("PAuth", ("Msg50", b"alice", b"ssh-connection", ("BNone",))), True)]]
+    for pre in prefixes:
+        for pt in (80, 80, 90):
+            name = b"tcpip-forward" if pt == 80 and pre else b"keepalive@x"
+            payload = conn[pt] if pt == 90 else s_(name) + conn[80][4 + 13:]
+            steps = list(pre) + [(pt, payload, dict(base), ("PConn", pt, 3 if pt == 90 else 0, True, True), True)]
+            run_session(ctx, Session, hostkey, steps, stats, True, len(pre))
+
+
 def run(ctx):
     import paramiko
     ctx.rule = ("seeded generator (random.Random('C15-<seed>')): sessions on a real loopback server transport: 0-4 "
@@ -525,10 +561,10 @@ def run(ctx):
 
     with c14.gss_patch(holder):
         for _ in range(nsess):
-            steps, control = gen_session(ctx.rng)
+            steps, control, rekey_at = gen_session(ctx.rng)
             res = None
             for attempt in range(2):        # retry once before believing a timing problem
-                res = run_session(ctx, mk, hostkey, steps, stats, control)
+                res = run_session(ctx, mk, hostkey, steps, stats, control, rekey_at)
                 if res is not None:
                     break
             if res is not None:
@@ -536,7 +572,7 @@ def run(ctx):
                 steps = steps[:used]
             if res is None:
                 ctx.fail("server-hang", "the server transport neither processed the packet nor died within 8 s (twice)",
-                         case=case_repr(steps))
+                         case=case_repr(steps, rekey_at))
                 continue
             if len(canon) < 3800:
                 cases.append((model_case(steps), canon))
@@ -544,6 +580,7 @@ def run(ctx):
             if len(ctx.samples) < 3:
                 ctx.sample({"steps": [repr(s[3]) for s in steps], "impl": canon[:80]})
         gss_swap_sessions(ctx, mk, hostkey, stats)
+        inkex_sessions(ctx, mk, hostkey, stats)
     bad = c14.guarded_mismatches(ctx, "run_loop", "(list (packet * env))", cases, shard=60,
                                  imports="From PV Require Import C39 C14 C15.")
     for i in bad[:3]:
@@ -585,4 +622,4 @@ def replay(ctx, rep):
         return sess
 
     with c14.gss_patch(holder):
-        run_session(ctx, mk, hostkey, steps, {})
+        run_session(ctx, mk, hostkey, steps, {}, True, case.get("server_rekey_before_step"))
